@@ -128,7 +128,7 @@ theorem inv_takeOut {ps : List (Nat × Lease)} {s : State} (hI : Inv ps s) {m : 
 def finish (s : State) (m : Nat) (l : Lease) (declined : Bool) : State :=
   { s with
     pool := if declined then (s.pool.release l.ip).markUnavailable l.ip else s.pool.release l.ip,
-    qos := rm s.qos l.ip, nat := rm s.nat l.ip,
+    qos := rm s.qos l.ip, qosHalf := rm s.qosHalf l.ip, nat := rm s.nat l.ip,
     kMac := rm s.kMac m,
     kCid := match l.cid with
       | some c => rm s.kCid (m, c)
@@ -602,6 +602,67 @@ theorem inv_renew {s : State} (hI : Inv [] s) {m : Nat} {l : Lease} (hl : lookup
   · simp only [ne_eq, e, not_false_eq_true, if_true]
     exact hI
 
+theorem qosInstall_qos (s : State) (r a : Nat) : a ∈ (qosInstall s r).qos → a = r ∨ a ∈ s.qos := by
+  unfold qosInstall
+  split
+  · exact Or.inr
+  · split <;> (intro h; exact (mem_ins _ _ _).mp h)
+
+theorem natInstall_nat (s : State) (r a : Nat) : a ∈ (natInstall s r).nat → a = r ∨ a ∈ s.nat := by
+  unfold natInstall
+  split
+  · exact Or.inr
+  · intro h; exact (mem_ins _ _ _).mp h
+
+theorem qosInstall_rest (s : State) (r : Nat) :
+    (qosInstall s r).cfg = s.cfg ∧ (qosInstall s r).radius = s.radius ∧ (qosInstall s r).pool = s.pool ∧
+    (qosInstall s r).leases = s.leases ∧ (qosInstall s r).nat = s.nat ∧ (qosInstall s r).kMac = s.kMac ∧
+    (qosInstall s r).kVlan = s.kVlan ∧ (qosInstall s r).kCid = s.kCid ∧ (qosInstall s r).kHash = s.kHash ∧
+    (qosInstall s r).acct = s.acct ∧ (qosInstall s r).nextSess = s.nextSess ∧ (qosInstall s r).stale = s.stale ∧
+    (qosInstall s r).early = s.early ∧ (qosInstall s r).now = s.now := by
+  unfold qosInstall
+  split
+  · simp
+  · split <;> simp
+
+theorem natInstall_rest (s : State) (r : Nat) :
+    (natInstall s r).cfg = s.cfg ∧ (natInstall s r).radius = s.radius ∧ (natInstall s r).pool = s.pool ∧
+    (natInstall s r).leases = s.leases ∧ (natInstall s r).qos = s.qos ∧ (natInstall s r).kMac = s.kMac ∧
+    (natInstall s r).kVlan = s.kVlan ∧ (natInstall s r).kCid = s.kCid ∧ (natInstall s r).kHash = s.kHash ∧
+    (natInstall s r).acct = s.acct ∧ (natInstall s r).nextSess = s.nextSess ∧ (natInstall s r).stale = s.stale ∧
+    (natInstall s r).early = s.early ∧ (natInstall s r).now = s.now := by
+  unfold natInstall
+  split <;> simp
+
+theorem qosInstall_radius (s : State) (r : Nat) : (qosInstall s r).radius = s.radius := (qosInstall_rest s r).2.1
+theorem natInstall_radius (s : State) (r : Nat) : (natInstall s r).radius = s.radius := (natInstall_rest s r).2.1
+theorem qosInstall_stale (s : State) (r : Nat) : (qosInstall s r).stale = s.stale := (qosInstall_rest s r).2.2.2.2.2.2.2.2.2.2.2.1
+theorem natInstall_stale (s : State) (r : Nat) : (natInstall s r).stale = s.stale := (natInstall_rest s r).2.2.2.2.2.2.2.2.2.2.2.1
+theorem qosInstall_early (s : State) (r : Nat) : (qosInstall s r).early = s.early := (qosInstall_rest s r).2.2.2.2.2.2.2.2.2.2.2.2.1
+theorem natInstall_early (s : State) (r : Nat) : (natInstall s r).early = s.early := (natInstall_rest s r).2.2.2.2.2.2.2.2.2.2.2.2.1
+
+theorem setFault_radius (s : State) (w : Nat) (on : Bool) : (setFault s w on).radius = s.radius := by
+  unfold setFault; split <;> (try split) <;> rfl
+theorem setFault_stale (s : State) (w : Nat) (on : Bool) : (setFault s w on).stale = s.stale := by
+  unfold setFault; split <;> (try split) <;> rfl
+theorem setFault_early (s : State) (w : Nat) (on : Bool) : (setFault s w on).early = s.early := by
+  unfold setFault; split <;> (try split) <;> rfl
+
+theorem inv_setFault {ps : List (Nat × Lease)} {s : State} (hI : Inv ps s) (w : Nat) (on : Bool) :
+    Inv ps (setFault s w on) := by
+  unfold setFault
+  split
+  · exact ⟨hI.pool, hI.pendFree, hI.pendNodup, hI.bind, hI.qos, hI.nat, hI.kMac, hI.kCid, hI.kHash, hI.kVlan,
+      hI.acctOff, hI.acctLive, hI.acctRec⟩
+  · split
+    · exact ⟨hI.pool, hI.pendFree, hI.pendNodup, hI.bind, hI.qos, hI.nat, hI.kMac, hI.kCid, hI.kHash, hI.kVlan,
+        hI.acctOff, hI.acctLive, hI.acctRec⟩
+    · exact ⟨hI.pool, hI.pendFree, hI.pendNodup, hI.bind, hI.qos, hI.nat, hI.kMac, hI.kCid, hI.kHash, hI.kVlan,
+        hI.acctOff, hI.acctLive, hI.acctRec⟩
+
+theorem cache_early' (s : State) (m : Nat) (cid : Option Nat) : (cache s m cid).early = s.early := by
+  unfold cache; cases cid <;> rfl
+
 theorem inv_establish {s : State} (hI : Inv [] s) {m : Nat} (hl : lookup s.leases m = none)
     (r : Nat) (cid : Option Nat) : Inv [] (establish s m r cid).1 := by
   unfold establish
@@ -643,16 +704,38 @@ theorem inv_establish {s : State} (hI : Inv [] s) {m : Nat} (hl : lookup s.lease
           have := owner_nil.mp h
           rw [hl] at this; cases this
         -- the final state
-        generalize hs3 : ({ s2 with qos := ins s2.qos r, nat := ins s2.nat r, acct := if s.radius = true then addStart s2.acct k m else s2.acct, nextSess := if s.radius = true then s.nextSess + 1 else s.nextSess } : State) = s3
-        have hl3 : s3.leases = s2.leases := by rw [← hs3]
+        obtain ⟨q1, q2, q3, q4, q5, q6, q7, q8, q9, q10, q11, _, _, _⟩ := qosInstall_rest s2 r
+        obtain ⟨n1, n2, n3, n4, n5, n6, n7, n8, n9, n10, n11, _, _, _⟩ := natInstall_rest (qosInstall s2 r) r
+        have hqos : ∀ a, a ∈ (natInstall (qosInstall s2 r) r).qos → a = r ∨ a ∈ s.qos := by
+          intro a ha; rw [n5] at ha
+          rcases qosInstall_qos s2 r a ha with h | h
+          · exact Or.inl h
+          · rw [c5, a4] at h; exact Or.inr h
+        have hnat : ∀ a, a ∈ (natInstall (qosInstall s2 r) r).nat → a = r ∨ a ∈ s.nat := by
+          intro a ha
+          rcases natInstall_nat _ r a ha with h | h
+          · exact Or.inl h
+          · rw [q5, c6, a5] at h; exact Or.inr h
+        generalize hs3 : ({ natInstall (qosInstall s2 r) r with acct := if s.radius = true then addStart s2.acct k m else s2.acct, nextSess := if s.radius = true then s.nextSess + 1 else s.nextSess } : State) = s3
+        have hl3 : s3.leases = s2.leases := by rw [← hs3]; show (natInstall (qosInstall s2 r) r).leases = _; rw [n4, q4]
         have hnlo : Owner [] s3 m nl := (hO s3 hl3 _ _).mpr (Or.inl ⟨rfl, rfl⟩)
         have hN3 := hN s3 hl3
         have hO3 := hO s3 hl3
         have r3 : s3.cfg = s.cfg ∧ s3.radius = s.radius ∧ s3.pool = p ∧ s3.kVlan = s.kVlan ∧ s3.kMac = ins s.kMac m ∧
-            s3.kCid = s2.kCid ∧ s3.kHash = s2.kHash ∧ s3.qos = ins s.qos r ∧ s3.nat = ins s.nat r ∧
+            s3.kCid = s2.kCid ∧ s3.kHash = s2.kHash ∧ (∀ a, a ∈ s3.qos → a = r ∨ a ∈ s.qos) ∧
+            (∀ a, a ∈ s3.nat → a = r ∨ a ∈ s.nat) ∧
             s3.acct = (if s.radius = true then addStart s.acct k m else s.acct) ∧
             s3.nextSess = (if s.radius = true then s.nextSess + 1 else s.nextSess) := by
-          rw [← hs3]; simp [c1, c2, c3, c5, c6, c7, c8, c10, a1, a2, a3, a4, a5, a6, a7, a9]
+          rw [← hs3]
+          refine ⟨?_, ?_, ?_, ?_, ?_, ?_, ?_, hqos, hnat, ?_, rfl⟩
+          · show (natInstall (qosInstall s2 r) r).cfg = _; rw [n1, q1, c1, a1]
+          · show (natInstall (qosInstall s2 r) r).radius = _; rw [n2, q2, c2, a2]
+          · show (natInstall (qosInstall s2 r) r).pool = _; rw [n3, q3, c3, a3]
+          · show (natInstall (qosInstall s2 r) r).kVlan = _; rw [n7, q7, c7, a6]
+          · show (natInstall (qosInstall s2 r) r).kMac = _; rw [n6, q6, c10, a9]
+          · show (natInstall (qosInstall s2 r) r).kCid = _; rw [n8, q8]
+          · show (natInstall (qosInstall s2 r) r).kHash = _; rw [n9, q9]
+          · show (if s.radius = true then addStart s2.acct k m else s2.acct) = _; rw [c8, a7]
         obtain ⟨r1, r2, r3', r4, r5, r6, r7, r8, r9, r10, r11⟩ := r3
         refine ⟨by rw [r1, r3', hp]; exact Bng.Dhcp4.poolInv_reserve hI.pool m r, by simp, by simp, ?_, ?_, ?_, ?_,
           ?_, ?_, by rw [r4]; exact hI.kVlan, ?_, ?_, ?_⟩
@@ -662,14 +745,12 @@ theorem inv_establish {s : State} (hI : Inv [] s) {m : Nat} (hl : lookup s.lease
           · rw [nlip]; exact Bng.Dhcp4.reserve_true hok
           · rw [Bng.Dhcp4.reserve_other hne]; exact hI.bind _ _ (owner_nil.mpr h')
         · intro a h
-          rw [r8, mem_ins] at h
-          rcases h with rfl | h
+          rcases r8 a h with rfl | h
           · exact ⟨m, nl, hnlo, nlip⟩
           · obtain ⟨m', l', h1, h2⟩ := hI.qos a h
             exact ⟨m', l', hN3 _ _ h1, h2⟩
         · intro a h
-          rw [r9, mem_ins] at h
-          rcases h with rfl | h
+          rcases r9 a h with rfl | h
           · exact ⟨m, nl, hnlo, nlip⟩
           · obtain ⟨m', l', h1, h2⟩ := hI.nat a h
             exact ⟨m', l', hN3 _ _ h1, h2⟩
@@ -754,6 +835,7 @@ theorem inv_step {s : State} (hI : Inv [] s) (op : Op) : Inv [] (step s op).1 :=
   | gap o inner => exact inv_gap hI o inner
   | split a b => exact inv_split hI a b
   | shutdown => exact hI
+  | fault w on => exact inv_setFault hI w on
 
 theorem inv_run {s : State} (hI : Inv [] s) (ops : List Op) : Inv [] (run s ops) := by
   unfold run
@@ -1392,7 +1474,7 @@ theorem step_radius (s : State) (op : Op) : (step s op).1.radius = s.radius := b
         | mk p ok =>
           cases ok
           · rfl
-          · simp only [(cache_rest _ _ _).2.1]
+          · simp only [natInstall_radius, qosInstall_radius, (cache_rest _ _ _).2.1]
     | some l =>
       simp only [renew]
       split
@@ -1423,6 +1505,7 @@ theorem step_radius (s : State) (op : Op) : (step s op).1.radius = s.radius := b
         · simp only [e, if_false]; exact term_radius b s
     | cleanup o => simp only [split, term_radius]; exact applyList_radius _ _ _
   | shutdown => rfl
+  | fault w on => exact setFault_radius s w on
 
 theorem run_radius (s : State) (ops : List Op) : (run s ops).radius = s.radius := by
   unfold run
@@ -1494,7 +1577,7 @@ theorem step_stale (s : State) (op : Op) : (step s op).1.stale = s.stale := by
         | mk p ok =>
           cases ok
           · rfl
-          · simp only [cache_stale]
+          · simp only [natInstall_stale, qosInstall_stale, cache_stale]
     | some l =>
       simp only [renew]
       split
@@ -1525,6 +1608,7 @@ theorem step_stale (s : State) (op : Op) : (step s op).1.stale = s.stale := by
         · simp only [e, if_false]; exact term_stale b s
     | cleanup o => simp only [split, term_stale]; exact applyList_stale _ _ _
   | shutdown => rfl
+  | fault w on => exact setFault_stale s w on
 
 
 theorem fixStale_nil {s : State} (h : s.stale = []) : fixStale s = s := by
@@ -1552,6 +1636,7 @@ theorem stepX_of_nil {s : State} (h : s.stale = []) :
     | gap o i => simp only [stepX]; exact fixStale_nil ((step_stale s (.gap o i)).trans h)
     | split a b => simp only [stepX]; exact fixStale_nil ((step_stale s (.split a b)).trans h)
     | shutdown => simp only [stepX]; exact fixStale_nil ((step_stale s .shutdown).trans h)
+    | fault w on => simp only [stepX]; exact fixStale_nil ((step_stale s (.fault w on)).trans h)
   · intro m cid
     simp only [stepX, hh, step]
 
@@ -1589,8 +1674,15 @@ theorem request_split {s : State} (hI : Inv [] s) (mac r : Nat) (cid : Option Na
             | some rr => exact absurd (hI.acctRec _ _ hx).1 (Nat.lt_irrefl _)
           unfold requestFinish
           simp only
+          have c1 : (cache ({ s with pool := p, leases := insert s.leases mac { ip := r, exp := s.now + s.cfg.leaseTime, cid := cid, sess := if s.radius = true then s.nextSess else 0 } } : State) mac cid).acct = s.acct := (cache_rest _ _ _).2.2.2.2.2.2.2.1
+          have c2 : (natInstall (qosInstall (cache ({ s with pool := p, leases := insert s.leases mac { ip := r, exp := s.now + s.cfg.leaseTime, cid := cid, sess := if s.radius = true then s.nextSess else 0 } } : State) mac cid) r) r).early = s.early := by
+            rw [natInstall_early, qosInstall_early, cache_early']
           cases hr : s.radius with
-          | false => cases cid <;> simp [cache]
-          | true => cases cid <;> simp [cache, hfresh hr]
+          | false => simp [cache_early', natInstall_early, qosInstall_early]
+          | true =>
+            have c3 := (cache_rest ({ s with pool := p, leases := insert s.leases mac { ip := r, exp := s.now + s.cfg.leaseTime, cid := cid, sess := s.nextSess } } : State) mac cid).2.2.2.2.2.2.2.1
+            rw [hr] at c3
+            simp only [hr] at c3 ⊢
+            simp [c3, hfresh hr, cache_early', natInstall_early, qosInstall_early]
 
 end Bng.DhcpTerm
